@@ -71,6 +71,10 @@ CHECKS = {
    technique="TLA+ definition of the proleptic Gregorian calendar, instants, civil times in fixed-offset zones, tick arithmetic and interval addition (lemmas checked by TLC over every day 1900..2299) + every conversion call of the library recorded as one trace line and judged by TLC against it (trace validation)",
    text="TLC proves the calendar lemmas (day number <-> date inverse for all 146 097 days, consecutive days, instants <-> civil times in every zone, quarter = 3 months); on the library: ToDate/Date.Time for all 65 536 days and ToDate32/Date32.Time for all days 1900-01-01..2299-12-31 with a time of day and a zone -12h..+14h each (thorough: 8 variants per day), DateTime over boundary + 160 000 random seconds, DateTime64 at each precision 0..9 over range ends, epoch, 64-bit nanosecond ends and 14 000 random instants with boundary fractions, raw DateTime64 values to times, the four time columns with a location, Interval.Add for every scale, wide-integer constructors / column encodings and IPv4/IPv6 conversions (~850 000 lines quick, ~7 million thorough).",
    note="Trusted: TLC; Go's time package for building inputs from civil fields and reading the fields of results (recomputed independently by the specification); the harness' 64-bit floor division that splits values into [days, second, fraction]. DateTime's 2^32 seconds and IPv4's 2^32 values are sampled, not enumerated. Known finding F-17 (a quarter is added as four months) is listed in known_findings.txt."),
+ "C08": dict(engine="Segmentation", category="model_checking", design_ref="DESIGN.md §5 C08",
+   technique="TLA+ model of the receive side over a transport that delivers in arbitrary pieces (TLC exhaustive over all segmentations and time-out placements of bounded streams, safety + liveness, with a short-read variant for non-vacuity) + real Do runs over an in-memory connection fed piece by piece, every connection Read, callback and result validated by TLC as a behaviour of that model with the reader's unlogged progress inferred (trace validation)",
+   text="TLC checks NoGarbage, Prompt, Exact, TimeoutIsStutter and Finishes for every segmentation of the bounded streams; on the real client ~40 (quick) / 90 (thorough) response scripts x compression modes are delivered in one piece, one byte at a time, cut in two at every offset (to 600 / 4000 bytes, packet edges + stride beyond), in all 2^(n-1) splits of streams up to 11 bytes, in random splits and packet-wise with injected read time-outs in every gap (~22 000 runs quick): Reads start only when the reader lacks bytes, time-outs only at packet boundaries and without effect, callbacks and result equal those of the one-piece run, each callback only after its packet arrived completely, exactly the stream is consumed.",
+   note="Trusted: TLC; the in-memory connection and its feeder (next piece only when the reader waits); time-outs are injected, not timed; how far a query that fails inside a malformed packet has read is not compared; which callbacks a stream calls for is C03's subject (the one-piece run is the reference)."),
  "C14": dict(engine="Writer", category="model_checking", design_ref="DESIGN.md §5 C14",
    technique="TLA+ model of the vectored writer with explicit backing arrays (TLC exhaustive) + every bounded operation sequence executed on the real proto.Writer and validated by TLC (trace validation)",
    text="Exhaustive at the stated sequence length over a 12-operation alphabet, plus random long sequences; each Flush's delivered bytes are compared by TLC with the specification's pending contents.",
@@ -122,6 +126,8 @@ def main():
              "kind_free_text": "TLA+ type ASTs, the compatibility relation and result binding as a state machine; MC_Types (lemmas + binding model), Trace_Types"},
             {"name": "Calendar", "path": "spec/Calendar.tla", "serves_properties": ["C20"],
              "kind_free_text": "TLA+ calendar, instants, ticks, intervals, byte-string widening; MC_Calendar (lemmas), Trace_Calendar"},
+            {"name": "Segmentation", "path": "spec/Segmentation.tla", "serves_properties": ["C08"],
+             "kind_free_text": "TLA+ model of the packet reader over arbitrarily segmented delivery with read time-outs; MC_Segmentation*.cfg, Trace_Segmentation"},
             {"name": "Frames", "path": "spec/Frames.tla", "serves_properties": ["C05"],
              "kind_free_text": "TLA+ model of compress.Reader over abstract frame streams with alteration classes; MC_Frames*.cfg, Trace_Frames"},
             {"name": "Pool", "path": "spec/Pool.tla", "serves_properties": ["C11", "C12"],
